@@ -238,6 +238,8 @@ class C42(Check):
                 add(r.pick([0, 20, 300, 1000, 2500]))
         while len(dict_packing(avail, keys)) > nbuf and len(keys) > 1 and nbuf > 0:
             keys.pop()
+        if not keys:                 # at least one registered key for the events
+            add(r.pick([0, 20]))
         nk = len(keys)
         ns = r.range(1, 2)
         evs = []
@@ -501,6 +503,10 @@ class C42(Check):
         try:
             pages, mode, ns, keys, ninfo, evs = parse_case(case)
         except Exception:
+            return None
+        # precondition of the property (and of the writer API): events use registered keys, streams exist.
+        # A case outside it is not judged (the generators never produce one; a replay file might).
+        if any(not (1 <= e[1] // 2 <= len(keys)) or not (0 <= e[0] < ns) for e in evs):
             return None
         if obs.startswith("<"):
             return "no read-back: " + obs[:100]
